@@ -820,12 +820,16 @@ class Generator(AbstractODSGenerator):
         border_style: _BorderStyle
 
         previous_acquired_lot: Optional[InTransaction] = None
+        # Years are those of the taxable events' own timestamps: with mixed time zones around new year they may not be monotonic,
+        # so remember which years already have their first row, to keep the summary links pointing at it
+        linked_years: Set[int] = set()
         for entry in gain_loss_set:
             gain_loss: GainLoss = cast(GainLoss, entry)
             border_suffix: str = ""
             border_style = self.__get_border_style(gain_loss.taxable_event.timestamp.year, year)
-            if gain_loss.taxable_event.timestamp.year != year:
+            if gain_loss.taxable_event.timestamp.year != year and gain_loss.taxable_event.timestamp.year not in linked_years:
                 self.__tax_sheet_year_2_row[_AssetAndYear(asset, gain_loss.taxable_event.timestamp.year)] = row_index + 1
+                linked_years.add(gain_loss.taxable_event.timestamp.year)
             year = border_style.year
             border_suffix = border_style.border_suffix
             transparent_style: str = f"transparent{border_suffix}"
